@@ -24,7 +24,10 @@ open Httpcache
     close, rename over the destination (remove the temporary file on failure) — regenerated from
     store/fscache/fscache.go; a change back to create-truncate-write breaks this theorem -/
 theorem set_step_list :
-    Generated.fsSetOps = ["root.MkdirAll", "root.OpenFile", "f.Write", "f.Sync", "f.Close", "root.Rename", "root.Remove"] := by
+    Generated.fsSetOps = ["c.mkdirAll", "root.OpenFile", "f.Write", "f.Sync", "f.Close", "root.Rename", "root.Remove"] ∧
+    -- the helper creates directories and nothing else (it retries os.Root.MkdirAll when a concurrent Set
+    -- created a shared parent at the same moment)
+    Generated.fsSetHelperOps = ["c.mkdirAll:root.MkdirAll"] := by
   decide
 
 /-- Main theorem. From the initial state, after ANY interleaving of any number of Sets (at any
